@@ -34,8 +34,45 @@ def rand_val(r, big=False):
     return bytes(r.randrange(1, 255) for _ in range(r.choice([1, 1, 2, 3, 8])))
 
 
+def gen_flags_script(r, n):
+    """key flags: presumeKeyNotExists on keys the transaction has not written yet (Op_Insert), some of them deleted again in the
+    same generation (Op_CheckNotExists: no lock, nothing in the store tier), reads at every level; no staging, no failures"""
+    keys = [k.hex() for k in KEYS]
+    written, ops = set(), []
+    for _ in range(n):
+        x = r.random()
+        fresh = [k for k in keys if k not in written]
+        if x < 0.22 and fresh:
+            k = r.choice(fresh); written.add(k)
+            ops.append(["insert", k, hx(rand_val(r))])
+            if r.random() < 0.45:
+                ops.append(["del", k])
+        elif x < 0.40:
+            k = r.choice(keys); written.add(k)
+            ops.append(["set", k, hx(rand_val(r))])
+        elif x < 0.47:
+            k = r.choice(keys); written.add(k)
+            ops.append(["del", k])
+        elif x < 0.62:
+            ops.append(["get", r.choice(keys)])
+        elif x < 0.70:
+            ops.append(["bget", ",".join(r.sample(keys, r.choice([2, 3, 5])))])
+        elif x < 0.84:
+            ops.append(["flush", r.choice(["1", "1", "0"]), "1", "0"])
+        elif x < 0.90:
+            ops.append(["storestep", str(r.choice([0, 1, 2, 3]))])
+        elif x < 0.96:
+            ops.append(["complete", "1"])
+        else:
+            ops.append(["flushwait", "1"])
+    ops += [["flush", "1", "1", "0"], ["flushwait", "1"]] + [["get", k] for k in keys] + [["bget", ",".join(keys)]]
+    return r.choice([(0, 0, 0), (0, 0, HUGE), (2, 0, HUGE)]), ops
+
+
 def gen_script(r, cls, n):
     """returns (params, [op lines]) ; op line = list of tokens"""
+    if cls == "flags":
+        return gen_flags_script(r, n)
     keys = KEYS[: r.choice([3, 5, 8])]
     ops = []
     depth = 0
@@ -132,6 +169,10 @@ def directed_scripts():
     D.append(("d-exist-wait", (0, 0, 0), [["set", k2, v2], ["flush", "1", "1", "0"], ["completeexist", k2], ["flushwait", "1"]]))
     # the entry size limit survives the buffer swap
     D.append(("d-limit", (0, 0, 0, 4), [["set", k1, v1], ["set", k1, b"vvv".hex()], ["flush", "1", "1", "0"], ["set", k2, b"vvv".hex()], ["set", k2, v2], ["flushwait", "1"], ["get", k1], ["get", k2]]))
+    # key flags: insert+delete (CheckNotExists: no lock) sorts first, the primary must be the next key; absent == tombstone afterwards
+    D.append(("d-flags", (0, 0, 0), [["insert", k1, v1], ["del", k1], ["insert", k2, v2], ["set", k3, v1], ["get", k1], ["flush", "1", "1", "0"],
+              ["get", k1], ["storestep", "0"], ["storestep", "1"], ["get", k1], ["complete", "1"], ["get", k1], ["bget", k1 + "," + k2],
+              ["flushwait", "1"], ["get", k1], ["get", k2], ["bget", k1 + "," + k2 + "," + k3], ["set", k1, v2], ["get", k1]]))
     return D
 
 
@@ -157,7 +198,7 @@ def build_cases(tier, seed):
                 ops += [["flush", "1", "1", "0"], ["flushwait", "1"]] + [["get", kk] for kk in keys3]
                 cases.append(("sweep-%d-%d-%d-%d" % (seed, b, pos, len(steps)), "sweep", (0, 0, 0), ops))
     n = {"quick": 2500, "thorough": 12000}.get(tier, 2500)
-    classes = ["rand", "window", "force", "thresh", "err", "staging", "stale", "window", "exist", "limit"]
+    classes = ["rand", "window", "force", "thresh", "err", "staging", "stale", "window", "exist", "limit", "flags"]
     for i in range(n):
         cls = classes[i % len(classes)]
         th, ops = gen_script(r, cls, r.choice([6, 12, 25, 40]))
@@ -205,11 +246,15 @@ def oracle_case(tr):
     closed = False                  # some flush failed (scripted callback mirrors txn.go: committer closed)
     gens = []
     cache_shadow, stale = {}, set()
+    pyflag, cne = set(), set()      # keys flagged presumeKeyNotExists in the mutable buffer; keys ever flushed as CheckNotExists
     for idx, (name, a, res) in enumerate(tr["ops"]):
         if res and (res[0].startswith("panic") or res[0].startswith("err:")):
             fails.append({"oracle": "no-unexpected-error", "op_index": idx, "detail": " ".join([name] + a + ["=>"] + res)})
             continue
-        if name in ("set", "xset"):
+        if name == "insert":
+            if a[1] != "_":
+                truth[a[0]] = a[1]; cur[a[0]] = a[1]; pyflag.add(a[0])
+        elif name in ("set", "xset"):
             limit = int(tr["params"][3]) if len(tr["params"]) > 3 else 0
             size = len(a[0]) // 2 + (0 if a[1] == "_" else len(a[1]) // 2)
             if limit:
@@ -250,7 +295,7 @@ def oracle_case(tr):
             for k in asked:
                 n += 1
                 exp = truth.get(k, "nf")
-                if got[k] != exp:
+                if got[k] != exp and not (k in cne and {got[k], exp} <= {"nf", "_"}):
                     f = {"oracle": "C16_read_latest", "op_index": idx, "detail": "%s %s returned %s, latest write is %s" % (name, k, got[k], exp)}
                     fails.append(f)
             if name == "bget":
@@ -296,7 +341,8 @@ def oracle_case(tr):
                     fails.append({"oracle": "C16_flush_once", "op_index": idx, "detail": "flush %s was handed %s, the mutations buffered since the previous flush are %s" % (g, hand, cur)})
                 if muts != "-" and [kvp.split("=")[0] for kvp in muts.split(",")] != sorted(hand):
                     fails.append({"oracle": "C16_flush_once", "op_index": idx, "detail": "flush %s mutations not in key order / duplicated: %s" % (g, muts)})
-                cur = {}
+                cne |= {k for k, val in cur.items() if val == "_" and k in pyflag}
+                cur, pyflag = {}, set()
                 inflight = True
         elif name == "flushwait":
             n += 1
